@@ -73,6 +73,11 @@ func directEffect(f *FuncInfo, call *ast.CallExpr) string {
 	for _, pre := range effectCallees {
 		if strings.HasPrefix(id, pre) {
 			eff := strings.TrimPrefix(id, "pkg/")
+			// a checksummed write is a write: `switch s := store.(type) { case StoreCRC: s.PutCRC(…) default: s.Put(…) }`
+			// has the one effect "the object is written"
+			if eff == "storage.StoreCRC.PutCRC" {
+				eff = "storage.Store.Put"
+			}
 			// store operations: add the kind of key when it comes from a path builder
 			if strings.HasPrefix(id, "pkg/storage.") && len(call.Args) >= 2 {
 				k := resolveKeyKind(f, call.Args[1], 0)
